@@ -833,8 +833,8 @@ fn discharge_some(cx: &mut Ctx) {
                 }
             }
             // D.prefix: lex_string call sites
-            let prefix_ok = t.contains("[Some(c),Some('\"'|'\\''),..]=>matchStringKind::try_from(c){Ok(kind)=>returnself.lex_string(kind),_=>{},},")
-                && t.contains("[Some(c1),Some(c2),Some('\"'|'\\'')]=>matchStringKind::try_from([c1,c2]){Ok(kind)=>returnself.lex_string(kind),_=>{},},")
+            let prefix_ok = t.contains("[Some(c),Some('\"'|'\\''),..]=>matchStringKind::try_from(c){Ok(kind)=>returnself.lex_string(kind),_=>{}},")
+                && t.contains("[Some(c1),Some(c2),Some('\"'|'\\'')]=>matchStringKind::try_from([c1,c2]){Ok(kind)=>returnself.lex_string(kind),_=>{}},")
                 && t.contains("'\"'|'\\''=>{letstring=self.lex_string(StringKind::String)?;")
                 && t.matches("self.lex_string(").count() == 3;
             if prefix_ok {
@@ -1483,7 +1483,7 @@ fn progress(cx: &mut Ctx) {
     if let Ok(lx) = sm::load(&cx.repo, "parser/src/lexer.rs") {
         let t = sm::tsx(&lx.file);
         let eof_emits = t.contains("self.emit((Tok::EndOfFile,TextRange::empty(tok_pos)));");
-        let next_maps = t.contains("matchtoken{Ok((Tok::EndOfFile,_))=>None,r=>Some(r),}");
+        let next_maps = t.contains("matchtoken{Ok((Tok::EndOfFile,_))=>None,r=>Some(r)}");
         if eof_emits && next_maps {
             cx.ok(rule, "P2: at end of input consume_normal emits EndOfFile (ending `while pending.is_empty()`), which Iterator::next maps to None: the token stream is finite");
         } else {
